@@ -265,6 +265,14 @@ func runC16(c *Ctx) {
 		c16Run(c, wrap.Case)
 		return
 	}
+	files, _ := filepathGlob("/verif/harness/corpus/C16/*.json")
+	for _, f := range files {
+		var wrap struct{ Case c16Case `json:"case"` }
+		b, err := osReadFile(f)
+		if err == nil && json.Unmarshal(b, &wrap) == nil && len(wrap.Case.Enums) > 0 {
+			c16Run(c, wrap.Case)
+		}
+	}
 	for i := 0; i < n; i++ {
 		c16Run(c, c16Gen(c.Rng("case", i)))
 	}
@@ -319,6 +327,26 @@ func c16Run(c *Ctx, cs c16Case) {
 			fail("violation", "unexpected-generation-error", "valid enum program rejected: "+msg, msg, nil)
 			return
 		}
+		// the whole-program model (generator-wide table of constant names) must report the same clash
+		{
+			req, order := c16EnumsReq(cs, out)
+			gm := c.Model(req)
+			switch gm["res"] {
+			case "ok":
+				fail("mismatch", "enums-model-conflict", "implementation reports a conflict, the whole-program model none: "+msg, msg, gm)
+			case "conflict":
+				if gm["val"] != mm[1] || gm["other"] != mm[2] || gm["goName"] != mm[3] {
+					fail("mismatch", "enums-model-conflict-detail", "conflict differs from the whole-program model: "+msg, msg, gm)
+				}
+			case "cross":
+				k := int(jsonNum(gm["enum"]))
+				if k >= len(order) || order[k].Name+"."+fmt.Sprint(gm["val"]) != mm[1] || gm["goName"] != mm[3] {
+					fail("mismatch", "enums-model-conflict-detail", "cross-enum conflict differs from the whole-program model: "+msg, msg, gm)
+				}
+				c.Res.Count("outcome:cross-enum-conflict-reported")
+				return
+			}
+		}
 		// some enum must conflict in the model, with the same triple
 		found := false
 		for _, r := range models {
@@ -341,6 +369,12 @@ func c16Run(c *Ctx, cs c16Case) {
 	}
 	c.Res.Count("outcome:ok")
 	c.Res.NonTrivial(key + "|ok")
+	{
+		req, _ := c16EnumsReq(cs, out)
+		if gm := c.Model(req); gm["res"] != "ok" {
+			fail("mismatch", "enums-model-ok", fmt.Sprintf("generation succeeded, the whole-program model reports %v", gm), nil, gm)
+		}
+	}
 	decls, allNames, err := c16Parse(out.Files["generated.go"])
 	if err != nil {
 		fail("violation", "output-does-not-parse", err.Error(), nil, nil)
@@ -406,4 +440,49 @@ func keysOf[V any](m map[string]V) []string {
 		ks = append(ks, k)
 	}
 	return ks
+}
+
+
+// c16EnumsReq: the whole-program model request, enums in the order the generator converted them (first
+// appearance in the type-map access log; enums never reached keep their declaration order at the end)
+func c16EnumsReq(cs c16Case, out *GenOut) (map[string]any, []c16Enum) {
+	var order []c16Enum
+	seen := map[string]bool{}
+	for _, ev := range out.Events {
+		for _, e := range cs.Enums {
+			if ev.GraphQLName == e.Name && !seen[e.Name] {
+				seen[e.Name] = true
+				order = append(order, e)
+			}
+		}
+	}
+	for _, e := range cs.Enums {
+		if !seen[e.Name] {
+			order = append(order, e)
+		}
+	}
+	var es []any
+	for _, e := range order {
+		x := map[string]any{"gqlName": e.Name, "values": e.Values}
+		if e.Typename != "" {
+			x["goName"] = e.Typename
+		}
+		es = append(es, x)
+	}
+	req := map[string]any{"op": "names.enums", "enums": es, "casingDefault": cs.Cfg.CasingDefault, "casingAllEnums": cs.Cfg.CasingAllEnums}
+	if len(cs.Cfg.CasingEnums) > 0 {
+		req["casingEnums"] = cs.Cfg.CasingEnums
+	}
+	return req, order
+}
+
+func jsonNum(v any) float64 {
+	switch x := v.(type) {
+	case float64:
+		return x
+	case json.Number:
+		f, _ := x.Float64()
+		return f
+	}
+	return -1
 }
